@@ -29,7 +29,7 @@ INDEX_KINDS = ['range', 'shuffled', 'shuffled', 'offset', 'float', 'string', 'no
 
 @st.composite
 def strategy_(draw):
-    case = draw(S.pipeline_case(WEIGHTS, vary=('msa', 'okta', 'sep', 'base'), p_default_prms=0.15,
+    case = draw(S.pipeline_case(WEIGHTS, vary=('msa', 'okta', 'sep', 'base'), p_default_prms=0.15, anomalies=True, anomaly_negative=False,
                                 msa_kinds=['none'] * 3 + ['athit'] * 3 + ['near'] * 3 + ['high', 'low']))
     n = len(case['rows'])
     var = {'index': draw(st.sampled_from(INDEX_KINDS))}
